@@ -104,15 +104,15 @@ def lzwWindow (w : Nat) (win : Seq) : Rat := ((lzwScan win [] []).length : Rat) 
 /-- a user alphabet as the harness sends it: for each of the 20 letters an optional image string -/
 abbrev UserAlphabet := AA → Option (List Char)
 
+/-- the image of a residue, if the user alphabet binds it to a single upper-case amino-acid letter -/
+def imageOf (u : UserAlphabet) (a : AA) : Option AA :=
+  match u a with
+  | some [c] => AA.ofChar? c
+  | _ => none
+
 /-- accepted iff every one of the 20 residues maps to a single upper-case amino-acid letter -/
 def userAlphabetMap (u : UserAlphabet) : Option (AA → AA) :=
-  if AA.all.all (fun a => match u a with
-      | some [c] => (AA.ofChar? c).isSome
-      | _ => false)
-  then some (fun a => match u a with
-      | some [c] => (AA.ofChar? c).getD a
-      | _ => a)
-  else none
+  if AA.all.all (fun a => (imageOf u a).isSome) then some (fun a => (imageOf u a).getD a) else none
 
 /-- the order of `TWENTY_AAs` -/
 def twentyOrder : List AA := [.R, .H, .K, .D, .E, .S, .T, .N, .Q, .C, .G, .P, .A, .I, .L, .M, .F, .W, .Y, .V]
@@ -120,6 +120,22 @@ def twentyOrder : List AA := [.R, .H, .K, .D, .E, .S, .T, .N, .Q, .C, .G, .P, .A
 /-- alphabet of a user mapping: distinct images in `TWENTY_AAs` order of first appearance -/
 def userAlphabetLetters (f : AA → AA) : List AA :=
   twentyOrder.foldl (fun acc x => if f x ∈ acc then acc else acc ++ [f x]) []
+
+/-- reduced sequence + alphabet for (size, user alphabet) as `reduce_alphabet` does -/
+def reduceSeq (reduceTab : Nat → Option (AA → AA)) (alphabetTab : Nat → Option (List AA)) (size : Option Nat) (ua : Option UserAlphabet) (s : Seq) : Except Err (Seq × List AA) :=
+  match ua with
+  | some u =>
+    match userAlphabetMap u with
+    | none => .error .badAlphabet
+    | some f => .ok (s.map f, userAlphabetLetters f)
+  | none =>
+    match size with
+    | none => .error .badAlphabetSize
+    | some k =>
+      match reduceTab k, alphabetTab k with
+      | some f, some al => .ok (s.map f, al)
+      | _, _ => .error .badAlphabetSize
+
 
 /-! ### C09 -/
 
